@@ -33,6 +33,9 @@ class _Extremum(Entry):
         n = max(1, n)
         shape2 = rng.random() < 0.25 and n % 2 == 0
         lo, hi = rng.choice([(-16, 16), (-16, 16), (0, 3), (-40, -30)])
+        if rng.random() < 0.3:         # float64 data that float32 cannot hold (the states' default dtype is float32)
+            from ..catalogue import f64_only
+            return {"x": f64_only(rng, n), "rows": 2 if shape2 else 0}
         return {"x": grid(rng, n, 8, lo, hi), "rows": 2 if shape2 else 0}
 
     def args(self, cfg, b):
